@@ -41,14 +41,16 @@ def _serial_pairs(bits, rng, n):
 class C17(Check):
     prop = "C17"
     props_file = "Props/C17.v"
-    models = ["SctpRecv"]
+    models = ["SctpRecv", "SctpSend", "RtpRecv", "RtpSend"]
     quick_cases = 700
     thorough_cases = 15000
     case_timeout = 60.0
     level_note = ("Serial-arithmetic laws are proved about Gen/Utils.v, which is regenerated from utils.py on every "
                   "run (validated by value inside Coq). Shift-invariance theorems are about Model/SctpRecv.v, "
-                  "Model/Jitter.v and Model/Stats.v (each tied to the code by its own correspondence). SCTP sender, "
-                  "NACK generator and RTP history are covered by the metamorphic re-run of the implementation only.")
+                  "Model/SctpTx.v, Model/SctpSend.v, Model/RtpRecv.v (NackGenerator), Model/RtpSend.v (history), Model/Jitter.v and Model/Stats.v (each tied to the code by its own "
+                  "correspondence; the receiver, _send, NackGenerator and RTP sender ties are re-run here at the wrap points). Reconfiguration "
+                  "sequence numbers are covered by the metamorphic re-run of the "
+                  "implementation only.")
     rule = ("k=0: receiver event lists with cumulative TSN within 300 of 2^32 / 2^31 / 0; k=3: metamorphic pairs "
             "(schedule at small origin, same schedule shifted to the wrap) for SCTP endpoints, receive path, "
             "JitterBuffer, NackGenerator, StreamStatistics; distinct by (case, outputs); non-trivial = the shifted "
@@ -85,6 +87,21 @@ class C17(Check):
     # ---------------------------------------------------------------- cases
     def gen_case(self, rng, i):
         r = rng.random()
+        if r < 0.03:
+            # theorem 6 is about Model/RtpSend.v: its tie to a real RTCRtpSender (C11's sender cases start their sequence
+            # counters within 140 of the wrap most of the time)
+            from harness.props.c11 import C11
+            return {"k": 5, "c11": C11().gen_sender(rng)}
+        if r < 0.07:
+            # theorem 5 is about the NackGenerator of Model/RtpRecv.v: its tie, at sequence numbers around the wrap
+            from harness.props.c11 import C11
+            return {"k": 4, "seqs": C11().gen_nack(rng)[1]}
+        if r < 0.13:
+            # the sender's SSN counters at origins around the 16-bit wrap, TSNs around the 32-bit wrap (theorem 2d is
+            # about Model/SctpSend.v: this is its tie to RTCSctpTransport._send)
+            c = C01mod.C01.gen_send_case(rng, origins=[65535, 65534, 65533, 65530, 32767, 32768, 0])
+            c["tsn0"] = (rng.choice(WRAPS32) - rng.randrange(0, 6)) & 0xFFFFFFFF
+            return c
         if r < 0.35:
             base = rng.choice(WRAPS32) - rng.randrange(0, 6) & 0xFFFFFFFF
             chunks, sent = C01mod.make_sender_chunks(rng, base)
@@ -163,12 +180,31 @@ class C17(Check):
                 "tdelta": (rng.choice(WRAPS32) - 100000 - rng.randrange(0, 5) * 160) & 0xFFFFFFFF}
 
     def model_name(self, case):
-        return "SctpRecv" if case["k"] == 0 else None
+        return {0: "SctpRecv", 2: "SctpSend", 4: "RtpRecv", 5: "RtpSend"}.get(case["k"])
+
+    def model_canon(self, case, out):
+        if case["k"] == 5:
+            from harness.props.c11 import C11
+            return C11().model_canon(case["c11"], out)
+        return out
 
     def encode(self, case):
+        if case["k"] == 5:
+            from harness.props.c11 import C11
+            return C11().encode(case["c11"])
+        if case["k"] == 4:
+            return [0, case["seqs"]]
+        if case["k"] == 2:
+            return C01mod.C01().encode(case)
         return [case["base"], case["events"]]
 
     def describe_case(self, case):
+        if case["k"] == 5:
+            return {"k": 5, "cfg": case["c11"][1], "ops": len(case["c11"][2])}
+        if case["k"] == 4:
+            return {"k": 4, "seqs": case["seqs"][:40]}
+        if case["k"] == 2:
+            return C01mod.C01().describe_case(case)
         if case["k"] == 0:
             return {"k": 0, "base": case["base"], "events": [[e[0], e[1][:7] if e[0] == 0 else e[1:]] for e in case["events"][:10]]}
         d = {k: v for k, v in case.items() if k not in ("scenario", "events", "pkts", "evs", "seqs")}
@@ -176,7 +212,13 @@ class C17(Check):
 
     # ---------------------------------------------------------------- implementation
     def impl_run(self, case):
-        if case["k"] == 0:
+        if case["k"] == 5:
+            from harness.props.c11 import C11
+            return C11().impl_run(case["c11"])
+        if case["k"] == 4:
+            from harness.props.c11 import C11
+            return C11().impl_nack(["N", case["seqs"]])[0]
+        if case["k"] in (0, 2):
             return C01mod.C01().impl_run(case)
         kind = case["kind"]
         if kind == "sctp":
@@ -212,7 +254,13 @@ class C17(Check):
 
     # ---------------------------------------------------------------- oracle
     def oracle(self, case, out):
-        if case["k"] == 0:
+        if case["k"] == 5:
+            from harness.props.c11 import C11
+            return C11().oracle(case["c11"], out)
+        if case["k"] == 4:
+            from harness.props.c11 import C11
+            return C11().oracle_nack(case["seqs"], out[1])
+        if case["k"] in (0, 2):
             return C01mod.C01().oracle(case, out)
         kind = case["kind"]
         if kind == "sctp":
@@ -260,6 +308,13 @@ class C17(Check):
         return None
 
     def nontrivial(self, case, out):
+        if case["k"] == 5:
+            return True
+        if case["k"] == 4:
+            return max(case["seqs"]) - min(case["seqs"]) > 60000 and any(st[0] for st in out[1])
+        if case["k"] == 2:
+            ssns = [ch[2] for chunks in out for ch in chunks[:1] if not ch[3]]
+            return 65535 in ssns and 0 in ssns
         if case["k"] == 0:
             tsns = [e[1][0] for e in case["events"] if e[0] == 0]
             return bool(tsns) and (max(tsns) - min(tsns) > 2 ** 31)
@@ -270,7 +325,13 @@ class C17(Check):
     def distribution(self, cases, outs):
         d = {"recv_corr": 0, "crossing_wrap": 0}
         for c, o in zip(cases, outs):
-            if c["k"] == 0:
+            if c["k"] == 5:
+                d["rtp_sender_corr"] = d.get("rtp_sender_corr", 0) + 1
+            elif c["k"] == 4:
+                d["nack_corr"] = d.get("nack_corr", 0) + 1
+            elif c["k"] == 2:
+                d["send_corr"] = d.get("send_corr", 0) + 1
+            elif c["k"] == 0:
                 d["recv_corr"] += 1
                 tsns = [e[1][0] for e in c["events"] if e[0] == 0]
                 if tsns and max(tsns) - min(tsns) > 2 ** 31:
